@@ -145,6 +145,10 @@ class BufGen:
             node = {"k": "for", "iv": iv, "lb": "%c0", "ub": r.choice(["%n0", "%n1", "%n2", "%n0", "%n1", "%c1", "%c2"]), "step": "%c1"}
             node["body"] = self.stmts(r.randint(1, 3), depth + 1, ivs + [iv], True)
             return node
+        if p.get("exec_region") and r.random() < p["exec_region"]:
+            # scf.execute_region with unstructured control flow inside: entry -> (cond ? bb1 : bb2); bb1 -> bb2; bb2 -> yield
+            self.xr = getattr(self, "xr", 0) + 1
+            return {"k": "xr", "n": self.xr, "cond": r.choice(["%p0", "%p1"]), "entry": self.stmts(r.randint(0, 1), depth + 1, ivs, inloop), "b1": self.stmts(r.randint(1, 2), depth + 1, ivs, inloop), "b2": self.stmts(r.randint(1, 2), depth + 1, ivs, inloop)}
         node = {"k": "if", "cond": r.choice(["%p0", "%p1"])}
         node["then"] = self.stmts(r.randint(1, 2), depth + 1, ivs, inloop)
         node["else"] = self.stmts(r.randint(0, 2), depth + 1, ivs, inloop)
@@ -185,7 +189,7 @@ def buffers_of(st):
         if key in st:
             out.add(st[key])
     out.update(st.get("ins", []))
-    for key in ("body", "then", "else"):
+    for key in ("body", "then", "else", "entry", "b1", "b2"):
         for x in st.get(key, []):
             out |= buffers_of(x)
     out = {NESTED.get(b, b) for b in out}
@@ -261,6 +265,18 @@ def emit(ast) -> str:
                     e(ind, "} else {")
                     stmts(ind + 1, s["else"])
                 e(ind, "}")
+            elif k == "xr":
+                n_ = s["n"]
+                e(ind, "scf.execute_region {")
+                stmts(ind + 1, s["entry"])
+                e(ind + 1, f'cf.cond_br {s["cond"]}, ^xa{n_}, ^xb{n_}')
+                e(ind, f"^xa{n_}:")
+                stmts(ind + 1, s["b1"])
+                e(ind + 1, f"cf.br ^xb{n_}")
+                e(ind, f"^xb{n_}:")
+                stmts(ind + 1, s["b2"])
+                e(ind + 1, "scf.yield")
+                e(ind, "}")
             else:
                 raise ValueError(k)
 
@@ -322,7 +338,7 @@ def has_kind(body, kind):
     for s in body:
         if s["k"] == kind:
             return True
-        for key in ("body", "then", "else"):
+        for key in ("body", "then", "else", "entry", "b1", "b2"):
             if has_kind(s.get(key, []), kind):
                 return True
     return False
@@ -338,7 +354,10 @@ def shrink_body(body):
         if k == "if":
             yield body[:i] + s["then"] + body[i + 1 :]
             yield body[:i] + s["else"] + body[i + 1 :]
-        for key in ("body", "then", "else"):
+        if k == "xr":
+            yield body[:i] + s["entry"] + s["b1"] + s["b2"] + body[i + 1 :]
+            yield body[:i] + s["entry"] + s["b2"] + body[i + 1 :]
+        for key in ("body", "then", "else", "entry", "b1", "b2"):
             if s.get(key):
                 for nb in shrink_body(s[key]):
                     yield body[:i] + [dict(s, **{key: nb})] + body[i + 1 :]
